@@ -212,7 +212,7 @@ def step (l : L) : L :=
     else { errorf l' "bad duration" with state := .done }
   | .rawString =>
     let (r, l') := next l
-    if r == runeError then errorf l' "invalid UTF-8 rune"            -- state stays lexRawString
+    if r == runeError && l'.width == 1 then errorf l' "invalid UTF-8 rune"    -- an invalid byte; a correctly encoded U+FFFD (width 3) is an ordinary character
     else if r == eof then errorf l' "unterminated raw string"
     else if r == l.backquoteOpen then { emit l' .QUOTED_STRING with state := .statements }
     else l'
